@@ -310,6 +310,9 @@ def has_candidates(F, body):
                 if any(cn == suf or cn.endswith("::" + suf) for suf, _ in COMBINATORS):
                     res = True
                     break
+                if "<impl bool>::then_some" in (c.get("ncallee") or c.get("callee") or "") and not c.get("mac"):
+                    res = True
+                    break
                 if (c.get("ngen") or "").endswith(("ops::function::Fn::call", "ops::function::FnMut::call_mut", "ops::function::FnOnce::call_once")) and not c.get("mac") \
                         and "{closure#" in (c.get("ncallee") or "") and (c.get("ncallee") or "").startswith(body.npath.split("::{closure")[0]):
                     res = True
@@ -629,6 +632,31 @@ def _thread_returns(thr, hraw, ren, ret_ids_new, call_t, is_async, dest_place):
 # ------------------------------------------------------------------ the inliner
 
 
+def _is_then_some(t):
+    """`cond.then_some(value)`: the `if cond { Some(value) } else { None }` it abbreviates"""
+    nm = t.get("ncallee") or t.get("callee") or ""
+    return "<impl bool>::then_some" in nm and len(t.get("args") or []) == 2 and t.get("t") is not None and len(t.get("d") or []) == 1 \
+        and not t.get("mac") and t["args"][0][0] in ("cp", "mv")
+
+
+def _expand_then_some(det, byid, state, alloc_block, blk):
+    t = blk["term"]
+    line = t.get("l")
+    tmp = state["next_l"]
+    state["next_l"] += 1
+    det["locals"][str(tmp)] = "bool"
+    b_some, b_none = alloc_block(), alloc_block()
+    dest, cont = list(t["d"]), t["t"]
+    blk["stmts"] = list(blk["stmts"]) + [{"d": [tmp], "rv": {"k": "use", "a": t["args"][0]}, "l": line}]
+    blk["term"] = {"k": "switch", "on": ["mv", [tmp]], "targets": [["0", b_none]], "otherwise": b_some, "l": line, "inlined_call": "bool::then_some"}
+    for bid_, st_ in ((b_some, [{"d": dest, "rv": {"k": "agg", "ak": "adt", "adt": "core::option::Option", "variant": "Some", "fields": ["0"], "ops": [t["args"][1]]}, "l": line}]),
+                      (b_none, [{"d": dest, "rv": {"k": "agg", "ak": "adt", "adt": "core::option::Option", "variant": "None", "fields": [], "ops": []}, "l": line}])):
+        nb = {"id": bid_, "cleanup": False, "stmts": st_, "term": {"k": "goto", "t": cont}}
+        det["blocks"].append(nb)
+        byid[bid_] = nb
+    det["inlined"].append({"callee": "bool::then_some", "at_block": blk["id"], "line": line, "depth": 1, "blocks": 2, "async": False, "combinator": True})
+
+
 def _expand_combinator(F, body, det, byid, state, alloc_block, work, blk, spec, cl, agg, depth, stack, thr):
     """replace `d = opt.is_some_and(closure)` (etc.) by `switch discriminant(opt) { other => d = const; payload => d = closure(payload) }`"""
     t = blk["term"]
@@ -899,6 +927,9 @@ def inline_detail(F, body, raw):
             if h is not None:
                 work.append((blk["id"], h, 1, (body.path, h.path)))
                 continue
+            if _is_then_some(t):
+                work.append((blk["id"], ("thensome",), 1, (body.path,)))
+                continue
             hc = _eligible_comb(F, body, blocks, t, (body.path,))
             hcc = _eligible_closure_call(F, body, blocks, t, (body.path,)) if hc is None else None
             if hc is not None:
@@ -914,7 +945,7 @@ def inline_detail(F, body, raw):
     # combinators and closure calls of the body itself first: a helper's return sites can only be threaded into a continuation that
     # already is a branch (`helper().is_none_or(..)` → `match helper() { .. }`)
     # ... and of a chain `a.and_then(..).map(..)` the last link first, for the same reason
-    work.sort(key=lambda w: (0, -w[0]) if isinstance(w[1], tuple) and w[1] and w[1][0] in ("comb", "clcall") else (1, w[0]))
+    work.sort(key=lambda w: (0, -w[0]) if isinstance(w[1], tuple) and w[1] and w[1][0] in ("comb", "clcall", "thensome") else (1, w[0]))
     det = {"blocks": [dict(b, stmts=list(b["stmts"]), term=dict(b["term"])) for b in blocks], "locals": dict(raw["locals"]),
            "vars": list(raw["vars"]), "argc": raw["argc"], "inlined": [],
            "extra": {"calls": [], "aggregates": [], "field_mut": [], "asserts": []}}
@@ -932,6 +963,9 @@ def inline_detail(F, body, raw):
         blk = byid[bid]
         t = blk["term"]
         if t["k"] != "call":
+            continue
+        if isinstance(h, tuple) and h and h[0] == "thensome":
+            _expand_then_some(det, byid, state, alloc_block, blk)
             continue
         if isinstance(h, tuple) and h and h[0] == "comb":
             _expand_combinator(F, body, det, byid, state, alloc_block, work, blk, h[1], h[2], h[3], depth, stack, thr)
